@@ -235,6 +235,6 @@ type ParStep struct {
 type ParFilter struct {
 	Spec   FilterSpec `json:"spec"`
 	Cached bool       `json:"cached,omitempty"`
-	Owner  int        `json:"owner"` // -1 = shared by all goroutines, else private to that goroutine
+	Owner  int        `json:"owner"`           // -1 = shared by all goroutines, else private to that goroutine
 	Batch  bool       `json:"batch,omitempty"` // the filter was used once for Batch(rel) before (as a batch operation would)
 }
